@@ -25,17 +25,17 @@ INTERNAL = ["RunCb", "Finish"]
 
 def run(rep, work, tier, seed):
     if tier == "quick":
-        mc = dict(NTasks=3, N=4, MaxOps=7, MaxRec=0, MaxT=1, MTypes=["Cat"], Kinds=["s", "a"], Bug="none")
-        conf = dict(NTasks=2, N=3, MaxOps=6, MaxRec=0, MaxT=1, MTypes=["Cat"], Kinds=["s", "a"], Bug="none")
+        mc = dict(NTasks=3, N=4, MaxOps=7, MaxRec=0, MaxT=1, MTypes=["Cat"], Kinds=["s", "a"], Prep=False, Bug="none")
+        conf = dict(NTasks=2, N=3, MaxOps=6, MaxRec=0, MaxT=1, MTypes=["Cat"], Kinds=["s", "a"], Prep=False, Bug="none")
     else:
-        mc = dict(NTasks=3, N=5, MaxOps=8, MaxRec=0, MaxT=1, MTypes=["Cat"], Kinds=["s", "a"], Bug="none")
-        conf = dict(NTasks=3, N=4, MaxOps=7, MaxRec=0, MaxT=1, MTypes=["Cat"], Kinds=["s", "a"], Bug="none")
+        mc = dict(NTasks=3, N=5, MaxOps=8, MaxRec=0, MaxT=1, MTypes=["Cat"], Kinds=["s", "a"], Prep=False, Bug="none")
+        conf = dict(NTasks=3, N=4, MaxOps=7, MaxRec=0, MaxT=1, MTypes=["Cat"], Kinds=["s", "a"], Prep=False, Bug="none")
     rep.extra["constants"] = dict(model=mc, conformance=conf)
     leg_m(rep, work, SPEC, f"mc_{tier}",
           cfg_text(mc, spec="Spec", invariants=INVS, properties=PROPS + ["EventuallyCalled"]),
           expect_actions=["Open", "Close", "Finish", "RunCb", "Start", "End", "Tick", "Drain"], timeout=3000)
     if tier == "thorough":
-        small = dict(NTasks=2, N=3, MaxOps=6, MaxRec=0, MaxT=1, MTypes=["Cat"], Kinds=["s", "a"])
+        small = dict(NTasks=2, N=3, MaxOps=6, MaxRec=0, MaxT=1, MTypes=["Cat"], Kinds=["s", "a"], Prep=False)
         leg_mutant(rep, work, SPEC, "mutant_late_child", cfg_text(dict(small, Bug="late_child"), invariants=INVS),
                    ["CbAfterSubtree", "ExitNeverFails", "CbAtMostOnce", "CompletionIffSubtreeLeft"])
         leg_mutant(rep, work, SPEC, "mutant_metrics_before_group",
@@ -46,8 +46,16 @@ def run(rep, work, tier, seed):
           internal=INTERNAL, world=True)
     # three tasks sharing one inherited scope (children in plain tasks that outlive it, opened while an earlier
     # child is still open): needs 7-8 operations, explored on sync scopes only to keep the graph small
-    wide = dict(NTasks=3, N=3, MaxOps=7 if tier == "quick" else 8, MaxRec=0, MaxT=0, MTypes=["Cat"], Kinds=["s"], Bug="none")
+    wide = dict(NTasks=3, N=3, MaxOps=7 if tier == "quick" else 8, MaxRec=0, MaxT=0, MTypes=["Cat"], Kinds=["s"], Prep=False, Bug="none")
     leg_r(rep, work, SPEC, f"conf_wide_{tier}", cfg_text(wide, invariants=INVS), lambda: MetricsDriver(["Cat"]),
+          internal=INTERNAL, world=True)
+    # scope objects made in one place and entered in another - by a task that inherited nothing from the maker - with a
+    # garbage collection in between: the scope the object is registered under completes exactly when it has been left too
+    madec = dict(NTasks=2, N=3, MaxOps=6 if tier == "quick" else 7, MaxRec=0, MaxT=0, MTypes=["Cat"],
+                 Kinds=["s", "a"], Prep=True, Bug="none")
+    leg_m(rep, work, SPEC, f"made_mc_{tier}", cfg_text(madec, spec="Spec", invariants=INVS, properties=PROPS + ["EventuallyCalled"]),
+          expect_actions=["Make", "EnterMade", "Close", "RunCb"], timeout=3000)
+    leg_r(rep, work, SPEC, f"made_conf_{tier}", cfg_text(madec, invariants=INVS), lambda: MetricsDriver(["Cat"]),
           internal=INTERNAL, world=True)
     # leg T: random programs over 4 tasks / 8 scopes recorded from the real library, validated by a trace module
     # generated from Metrics.tla (callbacks run as silent internal steps between the logged events)
@@ -55,9 +63,9 @@ def run(rep, work, tier, seed):
     traces = gen_traces(rep, lambda: gen_trace(rnd, ["Cat"], records=False), 120 if tier == "quick" else 1500)
     leg_t_gen(rep, work, SPEC, f"trace_{tier}", traces, **trace_kw(["Cat"]))
     rep.assumptions += [
-        "scopes are created and entered at once (a scope object that is constructed and never entered keeps its "
-        "parent's completion pending forever - observed, not judged by C09)",
-        "garbage-collection driven paths (ScopeMetrics.__del__) are outside the model",
+        "a scope object that is made and never entered keeps the completion of the scope it is registered under pending "
+        "for ever (modelled as such - it has not been left); scopes made ahead carry no completion callback",
+        "ScopeMetrics.__del__ is outside the model; a garbage collection is forced before a made scope is entered",
         "sync callbacks for odd scope ids, async callbacks (run_coroutine_threadsafe on the same loop) for even ones; "
         "every third callback raises after it has looked (that must not fail an exit or stop enclosing completions)",
     ]
